@@ -42,6 +42,7 @@ static inline struct vs_rawhdr vs_raw_make(struct vs_astr name, struct vs_astr v
 static inline void vs_eff_addRaw(struct vs_opaque *coll, struct vs_rawhdr raw)
 {
     (void)coll;
+#ifdef VS_HDR_GRAMMAR      /* proof HeadersStep_grammar (C16); the other proofs of this function only count the raw copies */
     const char *n = raw.name.src, *v = raw.value.src;
     __CPROVER_assert(__CPROVER_same_object(n, g_buf_base) && __CPROVER_same_object(v, g_buf_base), "the raw header is cut out of the receive buffer");
     size_t no = (size_t)__CPROVER_POINTER_OFFSET(n), vo = (size_t)__CPROVER_POINTER_OFFSET(v), nl = raw.name.size, vl = raw.value.size;
@@ -51,6 +52,7 @@ static inline void vs_eff_addRaw(struct vs_opaque *coll, struct vs_rawhdr raw)
     __CPROVER_assert(g_buf_base[vo + vl] == CR && g_buf_base[vo + vl + 1] == LF, "C16: the value ends exactly at the CRLF that ends the line (value bytes intact)");
     __CPROVER_assert(vl == 0 || g_buf_base[vo] != ' ', "C16: the spaces behind the ':' are not part of the value");
     __CPROVER_assert(!g_line_eff || (g_line_eff_p == v && g_line_eff_n == vl), "C16: the typed header / the cookie parser was handed the same value bytes as the raw copy");
+#endif
     g_raw_added++;
     g_effects++;
 }
@@ -594,6 +596,10 @@ PROOFS = [
      'props': ['C01', 'C03'], 'cost': 30, 'timeout': 3600},
     {'name': 'HeadersStep_apply', 'enforce': 'Pistache_Http_Private_HeadersStep_apply', 'replace': [ADV], 'loops': 'contracts',
      'props': ['C01', 'C03'], 'cost': 100, 'timeout': 3600},
+    # the same function once more with the header-line grammar assertions switched on (they triple the solver time -- about 8 minutes -- so the proof is in the
+    # thorough tier only and kept out of the runs for C01 / C03): every raw copy is name ":" SP* value CRLF of its line, the typed parser sees the same value bytes
+    {'name': 'HeadersStep_grammar', 'enforce': 'Pistache_Http_Private_HeadersStep_apply', 'replace': [ADV], 'loops': 'contracts', 'defs': ['-DVS_HDR_GRAMMAR'],
+     'props': ['C16'], 'tier': 'thorough', 'cost': 100, 'timeout': 3600},
     {'name': 'BodyStep_reset', 'enforce': 'Pistache_Http_Private_BodyStep_reset', 'props': ['C04']},
     {'name': 'ParserBase_reset', 'enforce': 'Pistache_Http_Private_ParserBase_reset', 'loops': ('unwind', 5), 'props': ['C04', 'C03'],
      'complete': 'range-for over std::array<unique_ptr<Step>, 3>: exactly three iterations; unwinding assertions hold'},
